@@ -658,6 +658,7 @@ def cases(tier, rng):
     yield from oo_cases(thorough, rng)
     yield from mag_cases(thorough, rng)
     yield from seq_cases(thorough, rng)
+    yield from hist_cases(thorough)
     n_wb = 150 if thorough else 22
     for k in range(n_wb):
         nodes = W.gen_workbook(rng, free_ranges=False)
@@ -780,6 +781,8 @@ def oo_stored(case):
 def oo_impl(case):
     if case['oo'] == 'sequence':
         return seq_impl(case)
+    if case['oo'] == 'history':
+        return hist_impl(case)
     from pycel import ExcelCompiler
     from pycel.excelutil import AddressRange
     import contextlib
@@ -811,6 +814,9 @@ def oo_oracles(r):
     case = r.case
     if case['oo'] == 'sequence':
         yield from seq_oracles(r)
+        return
+    if case['oo'] == 'history':
+        yield from hist_oracles(r)
         return
     if not r.impl.startswith('O|'):
         yield case, f'validate_calcs raised: {r.impl}'
@@ -1037,3 +1043,94 @@ def seq_cases(thorough, rng):
                     old = oo_stored(base)[c]
                     v = core.enc(old + 1000) if isinstance(old, (int, float)) else core.enc_text('zz')
                     yield dict(base, pert=[c, 'far', v])
+
+
+# ---------------------------------------------------------------------------------------------------------------
+# histories (oracle-only): harmless public calls on the compiler BEFORE the report call.  The report on an altered file
+# must be the report a fresh compiler gives for the same call:
+#   sheet-twice / cells-then-sheet   validate_calcs(sheet=S) a second time, or after formula_cells(S)
+#   eq-float / eq-int                set_value(input, the value it already holds, as the other numeric type) first
+
+def hist_impl(case):
+    """subject run vs reference run on two fresh compilers of the same altered file.  sheet-twice: the subject calls
+    validate_calcs(sheet=S) twice, the reference validate_calcs(output_addrs=<the formula cells of S>) twice (a second
+    report on one compiler legitimately differs from the first: the first call recomputed the cells).  cells-then-sheet:
+    formula_cells(S) / formula_cells() before the one call.  eq-float / eq-int: both runs evaluate the outputs (set_value
+    needs built cells); the subject then writes every numeric input with the value it already holds, as that type."""
+    from pycel import ExcelCompiler
+    import contextlib
+    import io
+    bad = dict(oo_stored(case))
+    bad[case['pert'][0]] = W._py(case['pert'][2])
+    path = os.path.join(TMP, f'hist{os.getpid()}.xlsx')
+    xw.write_xlsx(path, case['cells'], bad)
+    prior = case['prior']
+    tree = bool(case['tree'])
+    fcells = [a for a, v in case['cells'].items() if isinstance(v, str) and v.startswith('=')
+              and a.startswith(case['sheet'] + '!')]
+    # formula_cells(sheet) lists them row by row (the report depends on the order of the work list)
+    fcells.sort(key=lambda a: (int(''.join(ch for ch in a.rpartition('!')[2] if ch.isdigit())),
+                               len(a.rpartition('!')[2]), a.rpartition('!')[2]))
+
+    def run(subject):
+        comp = ExcelCompiler(filename=path)
+        reps = []
+        with contextlib.redirect_stdout(io.StringIO()):
+            if prior == 'sheet-twice':
+                for _ in range(2):
+                    rep = (comp.validate_calcs(sheet=case['sheet'], verify_tree=tree) if subject else
+                           comp.validate_calcs(output_addrs=list(fcells), verify_tree=tree))
+                    reps.append(_seq_report(rep))
+            elif prior == 'cells-then-sheet':
+                if subject:
+                    comp.formula_cells(case['sheet'])
+                    comp.formula_cells()
+                reps.append(_seq_report(comp.validate_calcs(sheet=case['sheet'], verify_tree=tree)))
+            else:
+                for a in case['outs']:
+                    comp.evaluate(a)
+                if subject:
+                    for a, v in case['cells'].items():
+                        if isinstance(v, bool) or not isinstance(v, (int, float)):
+                            continue
+                        w = float(v) if prior == 'eq-float' else int(v)
+                        if w == v and a in {str(k) for k in comp.cell_map}:
+                            comp.set_value(a, w)
+                reps.append(_seq_report(comp.validate_calcs(output_addrs=list(case['outs']), verify_tree=tree)))
+        return reps
+
+    ref, got = run(False), run(True)
+    return 'O|' + '|'.join(ref + got)
+
+
+def hist_oracles(r):
+    case = r.case
+    if not r.impl.startswith('O|'):
+        yield case, f'validate_calcs raised: {r.impl}'
+        return
+    parts = r.impl[2:].split('|')
+    n = len(parts) // 2
+    ref, got = parts[:n], parts[n:]
+    what = f'{case["prior"]} (stored {case["pert"][0]} altered to {core.show(case["pert"][2])})'
+    if (case['pert'][0] + '=') not in ref[0]:
+        yield case, f'{what}: the reference run does not name the altered cell: {ref[0]}'
+    for k, (a, b) in enumerate(zip(got, ref), start=1):
+        if a != b:
+            yield case, f'{what}: report of call {k} is {a}, the reference run (fresh compiler, explicit cells) reports {b}'
+            break
+
+
+def hist_cases(thorough):
+    books = [
+        ({'Sheet1!A1': 1, 'Sheet1!A2': 2, 'Sheet1!A3': '=A1+A2', 'Sheet1!B1': 5, 'Sheet1!C1': '=A3+B1',
+          'Sheet1!D1': '=C1*2'}, ['Sheet1!D1'], 'Sheet1', ['Sheet1!A3', 'Sheet1!C1']),
+        ({'Sheet1!A1': 3, 'Sheet1!B1': '=A1+1', 'Sheet1!C1': '=B1*2', 'Data!A1': '=Sheet1!A1+1', 'Data!B1': 2.0,
+          'Data!C1': '=B1+A1'}, ['Sheet1!C1', 'Data!C1'], 'Data', ['Data!A1', 'Data!C1']),
+    ]
+    for cells, outs, sheet, perts in books:
+        for c in (perts if thorough else perts[:1]):
+            for prior in ('sheet-twice', 'cells-then-sheet', 'eq-float', 'eq-int'):
+                base = {'oo': 'history', 'cells': cells, 'const': {}, 'nostore': [], 'outs': outs, 'tree': 1,
+                        'tol': None, 'unev': [], 'prior': prior, 'sheet': sheet}
+                old = oo_stored(base)[c]
+                yield dict(base, pert=[c, 'far', core.enc(old + 1000)])
